@@ -247,8 +247,16 @@ class Subroutine(Scope):
     def get_diagnostics(self):
         errors = []
         for missing_obj in self.missing_args:
+            line_number = missing_obj.sline
+            if missing_obj.file_ast is not self.file_ast:
+                # Declared by an INCLUDEd file: for this file the line of the
+                # INCLUDE statement
+                line_number = self.sline
+                for inc in self.file_ast.include_statements:
+                    if any(obj is missing_obj for obj in inc.scope_objs):
+                        line_number = inc.line_number
             new_diag = Diagnostic(
-                missing_obj.sline - 1,
+                line_number - 1,
                 f'Variable "{missing_obj.name}" with INTENT keyword not found in'
                 " argument list",
                 severity=1,
